@@ -1,7 +1,7 @@
 """Roles and helpers for the unmanaged pool."""
 from .engine import Undecided
 from .roles import _one, inner_type_args, adt_of, SEM_TY
-from .facts import strip_generics, Operand, Place
+from .facts import strip_generics, Operand, Place, norm_path
 from .analysis import sources
 
 _cache = {}
@@ -55,9 +55,11 @@ class UnmanagedRoles:
                 if s.kind == 'assign' and s.rv.kind == 'agg' and s.rv.j.get('adt') == 'deadpool::Status':
                     f = dict(zip(s.rv.j['fields'], s.rv.ops))
                     for nm, role in (('size', 'SIZE'), ('available', 'AVAIL')):
-                        fs = {x[1] for x in sources(an, f[nm]) if x[0] == 'field' and x[1].startswith(self.INNER + '.')}
+                        # (deep: the value comes out of an atomic `load` of the field)
+                        fs = {x[1] for x in sources(an, f[nm], deep=True) if x[0] == 'field' and x[1].startswith(self.INNER + '.')}
                         fs = {x.split('.')[-1] for x in fs}
                         fs.discard(self.CONFIG)
+                        fs &= {x['name'] for x in fl if x['ty'].startswith('std::sync::atomic::Atomic')}
                         if len(fs) == 1:
                             setattr(self, role, fs.pop())
         atom = [x['name'] for x in fl if x['ty'].startswith('std::sync::atomic::Atomic')]
@@ -78,10 +80,35 @@ class UnmanagedRoles:
         self.CLEAR = _one(clearers, 'function clearing the queue') if clearers else None
         # guard type accounting for a get in progress (fix D5), optional
         self.GETGUARD = None
-        for a in c.adts:
-            if a['path'].startswith('deadpool::unmanaged::') and a['vis'] != 'pub' and a['path'] != self.INNER:
-                if any(i.get('trait') == 'std::ops::Drop' and adt_of(i['self_ty']) == a['path'] for i in c.impls):
-                    self.GETGUARD = a['path']
+        cands = [a['path'] for a in c.adts if a['path'].startswith('deadpool::unmanaged::') and a['vis'] != 'pub' and a['path'] != self.INNER and
+                 any(i.get('trait') == 'std::ops::Drop' and adt_of(i['self_ty']) == a['path'] for i in c.impls)]
+        if len(cands) > 1:
+            # several private RAII types: the get guard is the one constructed over the `available` counter
+            avail = ('field', '%s.%s' % (self.INNER, self.AVAIL))
+            keep = []
+            for cand in cands:
+                hit = False
+                for b in self.bodies():
+                    an_ = prog.an(b)
+                    for blk in b.blocks:
+                        for st in blk.stmts:
+                            if st.kind == 'assign' and st.rv.kind == 'agg' and st.rv.j.get('ak') == 'adt' and norm_path(strip_generics(st.rv.j['adt'])) == cand:
+                                for op in st.rv.ops:
+                                    src = sources(an_, op)
+                                    if avail in src:
+                                        hit = True
+                                    if any(x[0] == 'arg' for x in src):
+                                        for caller, bb, k in prog.callers_of(b.path):
+                                            cb = prog.bodies[caller]
+                                            for a_ in cb.blocks[bb].term.args:
+                                                if avail in sources(prog.an(cb), a_):
+                                                    hit = True
+                if hit:
+                    keep.append(cand)
+            cands = keep
+        if len(cands) > 1:
+            raise Undecided('several private guard types over the available counter: %s' % cands)
+        self.GETGUARD = cands[0] if cands else None
 
     def _b(self, name):
         b = self.prog.body(name)
